@@ -12,6 +12,8 @@ import (
 	"fmt"
 	"os"
 	"os/exec"
+	"path/filepath"
+	"strconv"
 	"strings"
 	"time"
 
@@ -158,6 +160,15 @@ func c16Triples(c *Ctx, n int) []c16Triple {
 				q += "." + fn + "(" + strings.Join(conf[r.Intn(len(conf))], ",") + ")"
 			}
 			ts = append(ts, c16Triple{q, txt, "", "function-chain", nil})
+			if r.Intn(3) == 0 {
+				// what the validator has a message for: an unknown function (alone, followed by a filter, by a key, by a call), a filter
+				// right after a call, a call where none can be - every error text must read the same whatever was validated before
+				odd := []string{q + ".Nope()", q + ".Nope()[@.x.Greater(1)]", q + ".Nope()[@.x][@.y]", q + ".Nope().k", q + ".Nope().Left(1)", q + "[@.x.Greater(1)]", q + "[@.Nope()]",
+					"$.input.recv.Nope()[@.a]", "{$.input.recv.Nope()[@.a]}", "{OR," + q + "}", "$.input.recv.Equal($.input.Nope()[@.b])", "$.input.recv.Equal($.nowhere)", "$.input.recv.Equal({$.nowhere})"}
+				for k := 0; k < 3; k++ {
+					ts = append(ts, c16Triple{odd[r.Intn(len(odd))], txt, "", "function-chain/messages", nil})
+				}
+			}
 		default: // malformed stream (totality)
 			g := &cueGen{r: r}
 			root, steps := c13Root(g, 2)
@@ -197,7 +208,7 @@ func randomBytes(r *rng, n int) string {
 }
 
 func genC16(c *Ctx) {
-	c.Rule = "triples (query, schema, current step) of four classes - key paths on random schemas, dependency graphs with cycles and dangling names (blocked field at the head / in a filter / argument / group), function calls and chains, and a malformed stream (empty, unterminated, non-UTF-8 and random-byte queries; schemas that do not compile, are truncated, contradictory, recursive or have ill-typed _dependencies; unknown steps) - each evaluated (a) as the first call of a fresh process, (b) in the long-running process after a random history of other validations, (c) twice in a row, (d) with trailing whitespace/comment added to the query and to the schema (different cache keys; compared after removing the echoed query text); every result tree returned earlier is marshalled again after all later calls. Oracle: all observations of one triple are identical after removing the random ids; no panic, no hang, never (nil, nil). distinct = distinct (class, verdict)"
+	c.Rule = "triples (query, schema, current step) of four classes - key paths on random schemas, dependency graphs with cycles and dangling names (blocked field at the head / in a filter / argument / group), function calls and chains (also with unknown functions followed by filters, keys and calls, filters right after calls, unknown root fields inside arguments: everything the validator has an error text for), and a malformed stream (empty, unterminated, non-UTF-8 and random-byte queries; schemas that do not compile, are truncated, contradictory, recursive or have ill-typed _dependencies; unknown steps) - each evaluated (a) as the first call of a fresh process, (b) in the long-running process after a random history of other validations, (c) twice in a row, (d) with trailing whitespace/comment added to the query and to the schema (different cache keys; compared after removing the echoed query text); every result tree returned earlier is marshalled again after all later calls. Oracle: all observations of one triple are identical after removing the random ids; no panic, no hang, never (nil, nil). distinct = distinct (class, verdict)"
 	n := c.scale(900, 9000)
 	ts := c16Triples(c, n)
 	type kept struct {
@@ -299,4 +310,56 @@ func marshalNoIDs(tc mpath.CanBeAPart) string {
 	}
 	nb, _ := json.Marshal(stripIDs(tree))
 	return string(nb)
+}
+
+// ---------- search for two texts that the caches take for one another ----------
+//
+// `mpv collide <outdir> <nQueries> <nSchemas>`: used by the orchestrator as the search for a failing input when the proof
+// obligations about the caches (keyed by the texts themselves, values functions of their keys) no longer check. Texts of two
+// kinds that differ in a trailing comment only are validated in one process; every answer must be the answer of its kind.
+// A cache keyed by anything shorter than the text (a 32-bit hash, a prefix, a length) confuses two of them sooner or later.
+
+func init() {
+	commands["collide"] = func(args []string) {
+		quietStderr()
+		dir := args[0]
+		nq, _ := strconv.Atoi(args[1])
+		ns, _ := strconv.Atoi(args[2])
+		os.MkdirAll(dir, 0o755)
+		schema := func(ty string, tail string) string {
+			return "input: {\n\tamount: " + ty + "\n\tname: string\n\t_dependencies: []\n}\n" + tail
+		}
+		type hit struct {
+			Kind, Text, Schema, Want, Got string
+			Index                         int
+		}
+		var hits []hit
+		// queries: `$.input.amount // i` (a number) and `$.input.name // i` (a string) against one schema
+		base := schema("number", "")
+		qk := []string{"$.input.amount", "$.input.name"}
+		want := []string{cueValidateOnce(qk[0]+" ", base, "").canonLoose(), cueValidateOnce(qk[1]+" ", base, "").canonLoose()}
+		x := uint64(12345)
+		next := func() uint64 { // texts that differ in a counter alone are too regular for a weak hash to confuse: add noise
+			x = x*6364136223846793005 + 1442695040888963407
+			return x >> 20
+		}
+		for i := 0; i < nq && len(hits) < 3; i++ {
+			q := fmt.Sprintf("%s // %x %d", qk[i%2], next(), i)
+			if got := cueValidateOnce(q, base, "").canonLoose(); got != want[i%2] {
+				hits = append(hits, hit{"query", q, base, want[i%2], got, i})
+			}
+		}
+		// schemas: `amount: number ... // revision i` and `amount: string ... // revision i`, one query
+		q := "$.input.amount.Greater(1)"
+		sw := []string{cueValidateOnce(q, schema("number", "// r\n"), "").canonLoose(), cueValidateOnce(q, schema("string", "// r\n"), "").canonLoose()}
+		for i := 0; i < ns && len(hits) < 6; i++ {
+			s := schema([]string{"number", "string"}[i%2], fmt.Sprintf("// revision %x %d\n", next(), i))
+			if got := cueValidateOnce(q, s, "").canonLoose(); got != sw[i%2] {
+				hits = append(hits, hit{"schema", q, s, sw[i%2], got, i})
+			}
+		}
+		b, _ := json.MarshalIndent(map[string]any{"queries": nq, "schemas": ns, "hits": hits,
+			"history": "texts `<kind> // <noise(i)> i` for i = 0..index (noise from the fixed generator in gen_c16.go) validated in this order in one process (kinds alternate); the text at `index` got the answer of an earlier text of the other kind"}, "", " ")
+		os.WriteFile(filepath.Join(dir, "collide.json"), b, 0o644)
+	}
 }
